@@ -39,7 +39,7 @@ RACE_LVSS = [H("races", "race_lvss", 2, 3, args=[4, 0, 0], **{"max-failures": 60
 
 # C18(b): the exprgen sweep contains any_sender_of as an adaptor at every position (differential against the same
 # reference model as the unwrapped tree); sch_any covers any_scheduler; strm_seq covers type_erased_stream
-CORO = [H("coro", "coro_script", args=list(a)) for a in ((0, 0, 0), (0, 1, 0), (0, 0, 1), (0, 1, 1), (1, 0, 0), (1, 1, 0), (1, 0, 1))] + [
+CORO = [H("coro", "coro_return_throws")] + [H("coro", "coro_script", args=list(a)) for a in ((0, 0, 0), (0, 1, 0), (0, 0, 1), (0, 1, 1), (1, 0, 0), (1, 1, 0), (1, 0, 1))] + [
     H("coro", "coro_script", args=[2, 0, 0], thorough_only=True), H("coro", "coro_script", args=[1, 1, 1], thorough_only=True)]
 CHECKS = {
     "C19": {"harnesses": C19_HARNESSES},
@@ -84,7 +84,7 @@ CHECKS = {
         H("cancel", "canc_generic", 2, 3), H("cancel", "canc_evt2", 2, 3), H("scopes", "scope_close_race", 2, 3, args=[0]),
         H("sched", "sch_loop", 2, 3), H("futures", "fut_v2", 2, 3, args=[0, 0])],
         "deadline": {"quick": 480, "thorough": 2400}},
-    "C02": {"harnesses": EXPR_SEQ_NR + EXPR_SEQ_FAULTS + RACES + RACE_LVSS + [
+    "C02": {"harnesses": [H("payload", "payload_adaptors")] + EXPR_SEQ_NR + EXPR_SEQ_FAULTS + RACES + RACE_LVSS + [
         H("futures", "fut_v2", 3, 4, args=[0, 0]), H("futures", "fut_v2", 3, 4, args=[1, 0]), H("futures", "fut_faults"),
         H("cancel", "canc_detach", 3, 4, args=[0]), H("cancel", "canc_evt2", 2, 3), H("cancel", "canc_basic", 2, 3),
         H("scopes", "scope_v0", 3, 4, args=[0])],
@@ -94,7 +94,7 @@ CHECKS = {
         H("cancel", "canc_generic", 3, 4, args=[0, 0, 0, 1]), H("cancel", "canc_detach", 3, 4, args=[0]),
         H("futures", "fut_v2", 3, 4, args=[1, 0]), H("scopes", "scope_v1", 3, 4, args=[0, 2])],
         "deadline": {"quick": 480, "thorough": 2400}},
-    "C05": {"harnesses": EXPR_SEQ + EXPR_SEQ_FAULTS, "deadline": {"quick": 420, "thorough": 2400}},
+    "C05": {"harnesses": [H("payload", "payload_adaptors")] + EXPR_SEQ + EXPR_SEQ_FAULTS, "deadline": {"quick": 420, "thorough": 2400}},
     "C12": {"harnesses": EXPR_SEQ_Q + [H("expr", "expr_d2", args=[r, 0, 1], weight=6, thorough_only=True) for r in EXPR_D2_ROOTS if r >= 18], "deadline": {"quick": 420, "thorough": 2400}},
     "C06": {
         "harnesses": [
